@@ -2,10 +2,10 @@
 From Coq Require Import ZArith List Bool Lia.
 Import ListNotations.
 From SCMO Require Import Lib.Val Gen.GenTaps Model.C14.
+From SCMO Require Export Model.C14s.   (* is_acgt ref_at up_at neighbours ctx_class conv spec_letter: definitions *)
 Open Scope Z_scope.
 
 (* ------------------------------------------------------------------ specification of the table *)
-Definition is_acgt (c : Z) : bool := (c =? cA) || (c =? cC) || (c =? cG) || (c =? cT).
 Definition is_act (c : Z) : bool := (c =? cA) || (c =? cC) || (c =? cT).
 
 (* CG* -> z, C[ACT]G -> x, C[ACT][ACT] -> h, nothing else *)
@@ -125,38 +125,7 @@ Lemma lookup_table m k : lookup k (table_of taps0 m) = if m then option_map uppe
 Proof. destruct (table_total k) as [H1 H2]. destruct m; cbn [table_of taps0 tp_meth tp_unmeth]; auto. Qed.
 
 (* ------------------------------------------------------------------ specification of a call letter *)
-Definition ref_at (ref : list Z) (i : Z) : option Z := if i <? 0 then None else nth_error ref (Z.to_nat i).
-Definition up_at (ref : list Z) (i : Z) : option Z := option_map upper (ref_at ref i).
-
-(* the two bases that follow the cytosine on ITS OWN strand, read 5'->3' on that strand:
-   reference C at pos: pos+1, pos+2 ; reference G at pos (C on the opposite strand): complement of pos-1, pos-2 *)
-Definition neighbours (ref : list Z) (pos base : Z) : option (Z * Z) :=
-  if base =? cC then
-    match up_at ref (pos + 1), up_at ref (pos + 2) with Some a, Some b => Some (a, b) | _, _ => None end
-  else
-    match up_at ref (pos - 1), up_at ref (pos - 2) with Some a, Some b => Some (compl a, compl b) | _, _ => None end.
-
-(* CpG -> z, CHG -> x, CHH -> h ; H = A/C/T ; any non-ACGT neighbour -> no class *)
-Definition ctx_class (n1 n2 : Z) : option Z :=
-  if is_acgt n1 && is_acgt n2 then Some (if n1 =? cG then c_z else if n2 =? cG then c_x else c_h) else None.
-
-Definition conv (base : Z) : Z := if base =? cC then cT else cA.     (* C>T , G>A *)
-
-Definition spec_letter (ref : list Z) (pos base cons : Z) : Z :=
-  match up_at ref pos with
-  | Some b0 =>
-      if b0 =? base then
-        match neighbours ref pos base with
-        | Some (n1, n2) =>
-            match ctx_class n1 n2 with
-            | Some l => if cons =? conv base then upper l else if cons =? base then l else cDot
-            | None => cDot
-            end
-        | None => cDot
-        end
-      else cDot
-  | None => cDot
-  end.
+(* ref_at, up_at, neighbours, ctx_class, conv, spec_letter: see Model/C14s.v *)
 
 (* ---- spec_ctx in terms of ctx_class *)
 Lemma spec_ctx_class a b c : spec_ctx [a; b; c] = if a =? cC then ctx_class b c else None.
